@@ -26,7 +26,13 @@ fn main() {
         let seed: u64 = args.get(2).and_then(|s| s.parse().ok()).unwrap_or(1);
         std::process::exit(c19::nondet_selftest(seed, 300));
     }
-    let opts = Opts::from_args(&args[2..]);
+    let mut opts = Opts::from_args(&args[2..]);
+    // Engine T always isolates cases in single-threaded processes: shuttle primitives are
+    // only sound within one OS thread, and statics of the code under test (shuttle atomics in
+    // the shadow crate) must not be shared between concurrently running executions.
+    if opts.procs == 0 && opts.stripe.is_none() && opts.replay.is_none() {
+        opts.procs = opts.workers.max(1);
+    }
     let code = match args[1].as_str() {
         "c04-recompress-sched" => run(c04t::C04T, &opts),
         "c19-finish" => run(c19::C19, &opts),
